@@ -29,6 +29,9 @@ import (
 type GroupingAggregator interface {
 	// Aggregate aggregates the time series data
 	Aggregate(it series.GroupedIterator)
+	// AddAggregatorSpec adds the aggregator spec of a field which the aggregator does not know yet
+	// (nodes that have never seen a field do not report it, so responses may carry different field sets).
+	AddAggregatorSpec(aggSpec AggregatorSpec)
 	// ResultSet returns the result set of aggregator
 	ResultSet() series.GroupedIterators
 	// TimeRange returns the time range of aggregator.
@@ -83,6 +86,17 @@ func (ga *groupingAggregator) Aggregate(it series.GroupedIterator) {
 			}
 		}
 		if sAgg == nil {
+			// the field's spec was added after the aggregates of this group were created
+			for _, aggSpec := range ga.aggSpecs {
+				if aggSpec.FieldName() == fieldName {
+					sAgg = NewMergeSeriesAggregator(ga.interval, ga.intervalRatio, ga.timeRange, aggSpec)
+					seriesAgg = append(seriesAgg, sAgg)
+					ga.aggregates[it.Tags()] = seriesAgg
+					break
+				}
+			}
+		}
+		if sAgg == nil {
 			continue
 		}
 		// 2. merge the field series data
@@ -98,6 +112,16 @@ func (ga *groupingAggregator) Aggregate(it series.GroupedIterator) {
 }
 
 // ResultSet returns the result set of aggregator.
+// AddAggregatorSpec adds the aggregator spec of a field which the aggregator does not know yet.
+func (ga *groupingAggregator) AddAggregatorSpec(aggSpec AggregatorSpec) {
+	for _, spec := range ga.aggSpecs {
+		if spec.FieldName() == aggSpec.FieldName() {
+			return
+		}
+	}
+	ga.aggSpecs = append(ga.aggSpecs, aggSpec)
+}
+
 func (ga *groupingAggregator) ResultSet() series.GroupedIterators {
 	length := len(ga.aggregates)
 	if length == 0 {
